@@ -3,6 +3,7 @@ package bgp
 import (
 	"fmt"
 	"hash/fnv"
+	"runtime"
 	"runtime/debug"
 	"sort"
 	"strings"
@@ -64,16 +65,26 @@ type World struct {
 	// per-step notes shared between executor and oracles
 	StepIdx int
 	Data  map[string]any
+	goDelay time.Duration // >0 inside a batch-instant "par" step: tasks start after this delay
 }
 
 // Go runs fn as a task and waits for quiescence.
 func (w *World) Go(name string, fn func()) *Task {
 	t := &Task{Name: name, Started: w.Env.Sim.Now(), Step: w.StepIdx}
 	w.Tasks = append(w.Tasks, t)
-	go func() {
-		fn()
-		t.Done = true
-	}()
+	start := func() {
+		go func() {
+			fn()
+			t.Done = true
+		}()
+	}
+	if w.goDelay > 0 {
+		// the operation starts at the instant at which the messages sent in this step arrive, so
+		// that API callers and the sessions' goroutines are runnable together (race build)
+		w.Env.Sim.After(w.goDelay, 0, "task "+name, start)
+		return t
+	}
+	start()
 	w.Env.Sim.Settle()
 	return t
 }
@@ -105,7 +116,11 @@ func (w *World) exec(i int, s *Step) {
 	case "connect":
 		// a (re)connecting peer has forgotten its previous connection (peer restart): the old
 		// one is reset first. Simultaneous connections are the business of "connect2" (C24).
-		if p != nil {
+		if p != nil && w.goDelay > 0 {
+			if p.conn == nil || p.conn.peerClosed || p.conn.ClosedByDUT() {
+				e.Sim.After(w.goDelay, 40, "", func() { p.Connect() })
+			}
+		} else if p != nil {
 			if p.conn != nil && !p.conn.peerClosed && !p.conn.ClosedByDUT() {
 				p.Send(EncodeNotification(6, 4, nil)) // Cease / administrative reset
 				for k := 0; k < 200 && p.conn.pendingPeerTx > 0; k++ {
@@ -125,10 +140,28 @@ func (w *World) exec(i int, s *Step) {
 		// release several operations together: none of them runs before all are started; with the
 		// scheduling gate on, the simulator then interleaves them at every lock boundary
 		e.Sim.HoldSettle++
+		if w.Plan.Sim.BatchInstant {
+			// everything of this step happens at one later instant: messages arrive, connections
+			// close and API calls start together
+			w.goDelay = us(w.Plan.Params["arrival_us"])
+			for _, q := range w.Peers {
+				q.sendDelay = w.goDelay
+			}
+		}
 		for k := range s.Par {
 			w.exec(i, &s.Par[k])
 		}
+		d := w.goDelay
+		w.goDelay = 0
+		for _, q := range w.Peers {
+			q.sendDelay = 0
+		}
 		e.Sim.HoldSettle--
+		if d > 0 {
+			e.Sim.RunFor(d)
+		} else {
+			e.Sim.Settle()
+		}
 		e.probe("concurrent_step")
 	case "metrics":
 		w.Go("Metrics()", func() { w.DUT.Srv.Metrics() })
@@ -205,7 +238,12 @@ func (w *World) exec(i int, s *Step) {
 		}
 	case "peer_close":
 		if p != nil {
-			p.CloseConn(s.On)
+			if w.goDelay > 0 {
+				on := s.On
+				e.Sim.After(w.goDelay, 40, "", func() { p.CloseConn(on) })
+			} else {
+				p.CloseConn(s.On)
+			}
 			e.fault("peer_close")
 		}
 	case "peer_notify":
@@ -326,6 +364,14 @@ func RunPlan(t *testing.T, plan *Plan, opt RunOpts) (res *RunResult) {
 	res = &RunResult{Prop: plan.Prop, Engine: plan.Engine, Seed: plan.Seed}
 	start := time.Now()
 	defer func() { res.WallUS = time.Since(start).Microseconds() }()
+	if simrt.RaceMode {
+		// race build: the Go scheduler (one P, no asynchronous preemption) is part of the schedule;
+		// a garbage collection in the middle of a run would requeue the running goroutine at a
+		// point that depends on the process' heap history, so collections happen between runs
+		runtime.GC()
+		old := debug.SetGCPercent(-1)
+		defer debug.SetGCPercent(old)
+	}
 	func() {
 		defer func() {
 			if r := recover(); r != nil {
